@@ -9,6 +9,7 @@ mod c18;
 mod c10;
 mod eg;
 mod egx;
+mod egs;
 
 fn main() {
     common::install_panic_hook();
@@ -26,6 +27,7 @@ fn main() {
         "c10" => c10::main(&a),
         "eg" => eg::main(&a),
         "egx" => egx::main(&a),
+        "egs" => egs::main(&a),
         "features" => {
             println!("checks={} explanations={}", cfg!(feature = "checks"), cfg!(feature = "explanations"));
         }
